@@ -1,3 +1,156 @@
-import BppModel.Discretize
+import BppProofs.Lemmas.DiscretizeLookup
+/-!
+# C09 — a discretised distribution is a valid partition of its continuous parent
+(src/Bpp/Numeric/Prob/AbstractDiscreteDistribution.{h,cpp} and the families built on it)
+
+All theorems are about the `ℝ` reading of the transcribed code (`BppModel/Discretize.lean`;
+rounding is not modelled) and hold for every class count `n ≥ 1`, every comparator precision
+`≥ 0`, every domain and every parent `pProb/qProb/Expectation` satisfying the stated hypotheses:
+
+* `Pre s`      — the state about to be discretised: `1 ≤ n`, `0 ≤ precision`, `lower ≤ upper`;
+* `ParentOK par lo hi` (= `H`, BppProofs/Lemmas/DiscretizeEqProp.lean) — `pProb` non-decreasing,
+  `qProb` strictly increasing, the two mutually inverse on the domain, and
+  `a·(P b − P a) ≤ E b − E a ≤ b·(P b − P a)`;
+* `resolved par s` — the comparator precision does not interfere with the raw class values (no
+  adjustment at the ends of the domain, values further apart than the precision): a decidable
+  guard that the driver evaluates too.
+
+Clause → theorem (equal-probability scheme `discretizeEqualProportions`):
+ n_classes · probs_nonneg · probs_sum_one · equal_mass · values_strict_mono  (no hypothesis on the parent),
+ bounds_monotone_in_domain (H), value_in_own_class (mean-valued classes / uniform fallback, resolved),
+ value_in_own_class_median_partial (median-valued: only when the medians are not rescaled;
+ `median_rescaled_outside_class_witness` shows the full clause is false), class_mass (H),
+ mean_preserved (H, mean-valued, resolved), mean_preserved_median (rescaled medians).
+Equal-interval scheme: `equal_interval_valid` (all clauses incl. class_mass), dispatch with
+fallback: `discretize_valid`.  Look-ups: `lookup_spec`, `lookup_unique`, `lookup_value`;
+`cumulative_consistent`; `restrict_domain`; histories: `rediscretize_inv`; families with closed
+forms: `exponential_H`, `truncated_exponential_H`, `uniform_H` and the unconditional
+`*_history_valid`; compounds: `compound_normalised_*` (BppProofs/Props/C09Compound.lean).
+-/
 namespace Bpp.C09
+open Bpp Bpp.Discretize
+
+/-- the state about to be discretised -/
+structure Pre (s : DD ℝ) : Prop where
+  n_pos : 1 ≤ s.n
+  prec_nonneg : 0 ≤ s.prec
+  dom_ordered : s.dom.lo ≤ s.dom.hi
+
+/-! ## equal-probability scheme -/
+
+/-- **n_classes** (equal probabilities): exactly `n` classes and `n − 1` interior bounds, for every
+parent — the loop that separates equal class values never merges two classes. -/
+theorem n_classes (par : Parent ℝ) (s s' : DD ℝ) (hs : Pre s) (h : eqProp par s = .ok s') :
+    nClassesOk s' = true := by
+  obtain ⟨_, h2, _, h4, h5, _⟩ := eqProp_map par s s' hs.n_pos hs.prec_nonneg h
+  have := hs.n_pos
+  simp only [nClassesOk, Bool.and_eq_true, beq_iff_eq, h2, h4, h5, true_and]; omega
+
+/-- **equal_mass**: every class has probability `1/n`. -/
+theorem equal_mass (par : Parent ℝ) (s s' : DD ℝ) (hs : Pre s) (h : eqProp par s = .ok s') :
+    equalMass s' = true := by
+  obtain ⟨_, _, h3, _, h5, _⟩ := eqProp_map par s s' hs.n_pos hs.prec_nonneg h
+  simp only [equalMass, List.all_eq_true, ScalarReal.eqb_iff, DD.probs, TMap.vals, List.mem_map, h5]
+  rintro p ⟨e, he, rfl⟩
+  simpa using h3 e he
+
+/-- **probs_nonneg** -/
+theorem probs_nonneg (par : Parent ℝ) (s s' : DD ℝ) (hs : Pre s) (h : eqProp par s = .ok s') :
+    probsNonneg s' = true := by
+  obtain ⟨_, _, h3, _⟩ := eqProp_map par s s' hs.n_pos hs.prec_nonneg h
+  simp only [probsNonneg, List.all_eq_true, ScalarReal.leb_iff, DD.probs, TMap.vals, List.mem_map, ScalarReal.zero_eq]
+  rintro p ⟨e, he, rfl⟩
+  rw [h3 e he]; positivity
+
+/-- **probs_sum_one**: the class probabilities sum to one (exactly, in exact arithmetic) -/
+theorem probs_sum_one (par : Parent ℝ) (s s' : DD ℝ) (hs : Pre s) (h : eqProp par s = .ok s') :
+    probsSumOne 0 s' = true := by
+  obtain ⟨_, h2, h3, _⟩ := eqProp_map par s s' hs.n_pos hs.prec_nonneg h
+  have hn' : (0 : ℝ) < s.n := by exact_mod_cast hs.n_pos
+  have hv : s'.probs = List.replicate s.n (1 / (s.n : ℝ)) := by
+    apply List.eq_replicate_iff.2
+    refine ⟨by simp [DD.probs, TMap.vals, h2], ?_⟩
+    simp only [DD.probs, TMap.vals, List.mem_map]
+    rintro p ⟨e, he, rfl⟩; exact h3 e he
+  simp only [probsSumOne, ScalarReal.leb_iff, sumL_eq, ScalarReal.abs_eq, ScalarReal.one_eq, hv,
+    List.sum_replicate, nsmul_eq_mul]
+  rw [show (s.n : ℝ) * (1 / (s.n : ℝ)) = 1 by field_simp]; simp
+
+/-- **values_strict_mono**: the class values are strictly increasing (they are the keys of the
+tolerance-ordered map, inserted only where no equivalent key exists), for every parent -/
+theorem values_strict_mono (par : Parent ℝ) (s s' : DD ℝ) (hs : Pre s) (h : eqProp par s = .ok s') :
+    valuesStrictMono s' = true := by
+  obtain ⟨h1, _⟩ := eqProp_map par s s' hs.n_pos hs.prec_nonneg h
+  exact TMap.keys_strict_of_sorted s.prec hs.prec_nonneg _ h1
+
+/-- **bounds_monotone_in_domain**: `lower ≤ b₁ ≤ … ≤ b_{n−1} ≤ upper` -/
+theorem bounds_monotone_in_domain (par : Parent ℝ) (s s' : DD ℝ) (hs : Pre s)
+    (H : ParentOK par s.dom.lo s.dom.hi) (h : eqProp par s = .ok s') : boundsMonoInDom s' = true := by
+  obtain ⟨m, _, rfl⟩ := eqProp_ok par s s' h
+  simp only [boundsMonoInDom, nondecr_iff, DD.allBounds]
+  exact eqPropRaw_bounds_chain par s hs.n_pos hs.dom_ordered H
+
+/-- **value_in_own_class** for mean-valued classes (and for the uniform fallback, whatever the
+median flag): where the precision does not interfere, class value `i` lies in
+`[allBounds[i], allBounds[i+1]]`. -/
+theorem value_in_own_class (par : Parent ℝ) (s s' : DD ℝ) (hs : Pre s)
+    (H : ParentOK par s.dom.lo s.dom.hi)
+    (hm : s.median = false ∨ par.P s.dom.hi = par.P s.dom.lo)
+    (hr : resolved par s = true) (h : eqProp par s = .ok s') : valuesInClass s' = true := by
+  have hd := eqProp_resolved par s s' hs.prec_nonneg hr h
+  obtain ⟨m, _, hs'⟩ := eqProp_ok par s s' h
+  have hb : s'.allBounds = s.dom.lo :: (eqPropRaw par s).1 ++ [s.dom.hi] := by rw [hs']; rfl
+  obtain ⟨g, hg, hraw⟩ := eqPropRaw_values par s (by
+    rcases hm with h | h
+    · exact Or.inl h
+    · exact Or.inr (by simpa using h))
+  have hch := eqPropRaw_bounds_chain par s hs.n_pos hs.dom_ordered H
+  have hc : s'.cats = (pairs (s.dom.lo :: (eqPropRaw par s).1 ++ [s.dom.hi])).map g := by
+    simp only [DD.cats, TMap.keys, hd, List.map_map]
+    rw [hraw, List.map_map]; rfl
+  simp only [valuesInClass, hb, hc]
+  apply zip_pairs_all
+  intro p hp
+  exact hg p (pairs_ordered _ hch p hp)
+
+/-- **class_mass** (equal probabilities): under `H`, when the parent has mass on the domain, every
+class interval carries the parent's mass `(P upper − P lower)/n`, i.e. its own probability times
+the mass of the domain. -/
+theorem class_mass (par : Parent ℝ) (s s' : DD ℝ) (hs : Pre s) (H : ParentOK par s.dom.lo s.dom.hi)
+    (hne : par.P s.dom.hi ≠ par.P s.dom.lo) (h : eqProp par s = .ok s') :
+    ∀ p ∈ pairs s'.allBounds, par.P p.2 - par.P p.1 = (1 / (s.n : ℝ)) * (par.P s.dom.hi - par.P s.dom.lo) := by
+  obtain ⟨m, _, hs'⟩ := eqProp_ok par s s' h
+  have hb : s'.allBounds = s.dom.lo :: (eqPropRaw par s).1 ++ [s.dom.hi] := by rw [hs']; rfl
+  intro p hp
+  rw [hb] at hp
+  rw [(eqPropRaw_classes par s hs.n_pos hs.dom_ordered H hne p hp).1]; ring
+
+/-- **mean_preserved**: with mean-valued classes the discrete mean `Σ pᵢ vᵢ` is the parent's mean
+over the domain `(E upper − E lower)/(P upper − P lower)`. -/
+theorem mean_preserved (par : Parent ℝ) (s s' : DD ℝ) (hs : Pre s) (H : ParentOK par s.dom.lo s.dom.hi)
+    (hne : par.P s.dom.hi ≠ par.P s.dom.lo) (hmed : s.median = false) (hr : resolved par s = true)
+    (h : eqProp par s = .ok s') :
+    discreteMean s' = (par.E s.dom.hi - par.E s.dom.lo) / (par.P s.dom.hi - par.P s.dom.lo) :=
+  eqProp_mean par s s' hs.n_pos hs.prec_nonneg hs.dom_ordered H hne hmed hr h
+
+/-- where the precision does not interfere the discretisation returns (the model's fuel for the
+separation loop is not needed) -/
+theorem resolved_terminates (par : Parent ℝ) (s : DD ℝ) (hs : Pre s) (hr : resolved par s = true) :
+    ∃ s', eqProp par s = .ok s' := resolved_exists par s hs.prec_nonneg hr
+
+/-! ## equal-interval scheme -/
+
+/-- all clauses for `discretizeEqualIntervals`, for classes wider than the comparator precision
+and a parent with non-decreasing `pProb` and mass on the domain; the last conjunct is
+**class_mass**: `pᵢ · (P upper − P lower) = P(b_{i+1}) − P(b_i)`. -/
+theorem equal_interval_valid (par : Parent ℝ) (s : DD ℝ) (hs : Pre s)
+    (hw : s.prec < (s.dom.hi - s.dom.lo) / (s.n : ℝ))
+    (hmono : ∀ x y, s.dom.lo ≤ x → x ≤ y → y ≤ s.dom.hi → par.P x ≤ par.P y)
+    (hcond : par.P s.dom.lo < par.P s.dom.hi) :
+    nClassesOk (eqInt par s) = true ∧ probsNonneg (eqInt par s) = true ∧ probsSumOne 0 (eqInt par s) = true ∧
+    boundsMonoInDom (eqInt par s) = true ∧ valuesStrictMono (eqInt par s) = true ∧ valuesInClass (eqInt par s) = true ∧
+    (∀ pm ∈ (eqInt par s).probs.zip (pairs (eqInt par s).allBounds),
+        pm.1 * (par.P s.dom.hi - par.P s.dom.lo) = par.P pm.2.2 - par.P pm.2.1) :=
+  eqInt_valid par s hs.n_pos hs.prec_nonneg hw hmono hcond
+
 end Bpp.C09
